@@ -186,6 +186,8 @@ pub fn has_separator_false_only(root: &Obj) -> bool {
 pub struct PropTable {
     /// class -> (own properties (name, type), super classes, attached class)
     classes: std::collections::HashMap<String, (Vec<(String, String)>, Vec<String>, Option<String>)>,
+    /// (class, own property) that has both a READ and a WRITE function
+    read_write: std::collections::HashSet<(String, String)>,
 }
 
 #[derive(Clone, Copy, Debug, PartialEq)]
@@ -203,13 +205,17 @@ impl PropTable {
         classes.extend(env::adversarial_classes());
         qmluic::metatype_tweak::apply_all(&mut classes);
         let mut m = std::collections::HashMap::new();
+        let mut read_write = std::collections::HashSet::new();
         for c in classes {
+            for p in c.properties.iter().filter(|p| p.read.is_some() && p.write.is_some()) {
+                read_write.insert((c.qualified_class_name.clone(), p.name.clone()));
+            }
             let props = c.properties.iter().map(|p| (p.name.clone(), p.r#type.clone())).collect();
             let supers = c.super_classes.iter().map(|s| s.name.clone()).collect();
             let attached = c.class_infos.iter().find(|i| i.name == "QML.Attached").map(|i| i.value.clone());
             m.insert(c.qualified_class_name.clone(), (props, supers, attached));
         }
-        PropTable { classes: m }
+        PropTable { classes: m, read_write }
     }
 
     /// all properties of a class incl. the inherited ones
@@ -224,6 +230,37 @@ impl PropTable {
             if let Some((props, supers, _)) = self.classes.get(&c) {
                 out.extend(props.iter().cloned());
                 todo.extend(supers.iter().cloned());
+            }
+        }
+        out
+    }
+
+    /// properties (incl. inherited) with READ and WRITE whose type is one of the scalar types: (name, type)
+    pub fn scalar_read_write(&self, class: &str) -> Vec<(String, String)> {
+        const SCALARS: [&str; 4] = ["QString", "int", "bool", "double"];
+        let mut out = vec![];
+        let mut todo = vec![class.to_owned()];
+        let mut seen = BTreeSet::new();
+        while let Some(c) = todo.pop() {
+            if !seen.insert(c.clone()) {
+                continue;
+            }
+            if let Some((props, supers, _)) = self.classes.get(&c) {
+                out.extend(props.iter().filter(|(n, t)| SCALARS.contains(&t.as_str()) && self.read_write.contains(&(c.clone(), n.clone()))).cloned());
+                todo.extend(supers.iter().cloned());
+            }
+        }
+        out.sort();
+        out.dedup();
+        out
+    }
+
+    /// grouped properties whose gadget class has scalar read/write members: (group, member, member type)
+    pub fn gadget_members_read_write(&self, class: &str) -> Vec<(String, String, String)> {
+        let mut out = vec![];
+        for (g, gt) in self.candidates(class, ValueKind::Class) {
+            for (m, mt) in self.scalar_read_write(&gt) {
+                out.push((g.clone(), m, mt));
             }
         }
         out
@@ -281,7 +318,7 @@ pub fn prop_table() -> &'static PropTable {
     T.get_or_init(PropTable::load)
 }
 
-pub const FAULT_KINDS: usize = 30;
+pub const FAULT_KINDS: usize = 37;
 
 struct Target<'a> {
     idx: usize,
@@ -314,6 +351,23 @@ pub fn plant_fault(rng: &mut Rng, root: &Obj, kind: usize) -> Option<(Obj, Vec<F
         // names handled by special consumers are not part of this class of faults
         const SPECIAL: [&str; 6] = ["actions", "model", "horizontalHeader", "verticalHeader", "header", "separator"];
         prop_table().candidates(&o.class, k).into_iter().filter(|(n, _)| !SPECIAL.contains(&n.as_str()) && !has(o, n)).collect()
+    };
+    // read/write scalar properties resp. gadget members, by type, that are not bound yet
+    let dyn_scalars = |o: &Obj| -> Vec<(String, String)> { prop_table().scalar_read_write(&o.class).into_iter().filter(|(n, _)| !has(o, n) && n != "objectName").collect() };
+    let dyn_members = |o: &Obj| -> Vec<(String, String, String)> {
+        prop_table()
+            .gadget_members_read_write(&o.class)
+            .into_iter()
+            .filter(|(g, m, _)| !o.bindings.iter().any(|(l, _)| l == g || *l == format!("{g}.{m}")))
+            .collect()
+    };
+    // a dynamic expression whose type does not fit `ty`
+    let misfit = |rng: &mut Rng, ty: &str| -> String {
+        if ty == "QString" {
+            (*rng.pick(&["srcSpin.value", "srcCheck.checked", "srcSpin.value + 1"])).to_owned()
+        } else {
+            (*rng.pick(&["srcEdit.text", "srcEdit.text + \"x\"", "srcCombo.currentText"])).to_owned()
+        }
     };
     let attached_candidates = |p: &Obj, o: &Obj| -> Vec<(String, String, String)> {
         // only where the parent consumes the attached map (tab pages): elsewhere the binding is a left-over (another kind)
@@ -359,6 +413,13 @@ pub fn plant_fault(rng: &mut Rng, root: &Obj, kind: usize) -> Option<(Obj, Vec<F
         26 => ("constant-on-variant-property", "TYPED:variant".into(), String::new(), LeafSpec { konst: Konst::Fail, ret_ok: false, ..base }, "unsupported constant expression type: QVariant", all, (false, false, false, false), Box::new(|t| !typed_candidates(t.o, ValueKind::Variant).is_empty())),
         27 => ("non-object-on-pointer-property", "TYPED:pointer".into(), String::new(), LeafSpec { konst: Konst::Fail, ret_ok: false, ..base }, "expression type mismatch", all, (false, false, false, false), Box::new(|t| !typed_candidates(t.o, ValueKind::Pointer).is_empty())),
         28 => ("constant-on-class-typed-attached-property", "TYPED:attached".into(), String::new(), LeafSpec { konst: Konst::Fail, ret_ok: false, readable: false, writable: false, ..base }, "unsupported constant expression type", all, (false, false, false, false), Box::new(|t| t.parent.map(|p| !attached_candidates(p, t.o).is_empty()).unwrap_or(false))),
+        29 => ("ill-typed-actions", "actions".into(), "SPECIAL:actions".into(), LeafSpec { konst: Konst::Fail, ret_ok: false, readable: false, writable: false, ..base }, "expression type mismatch", all, (false, false, false, false), Box::new(|t| widgetish(t.o) && t.o.class != "QTabWidget" && !has(t.o, "actions") && !t.o.children.iter().any(|c| is_sep(c)))),
+        30 => ("ill-typed-model", "model".into(), "SPECIAL:scalar".into(), LeafSpec { konst: Konst::Fail, ret_ok: false, readable: false, writable: false, ..base }, "expression type mismatch", all, (false, false, false, false), Box::new(|t| matches!(t.o.class.as_str(), "QComboBox" | "QListWidget" | "QTableView" | "QTreeView") && !has(t.o, "model"))),
+        31 => ("scalar-on-header-property", "HEADERPROP".into(), "SPECIAL:scalar".into(), LeafSpec { konst: Konst::Fail, ret_ok: false, readable: false, writable: false, ..base }, "not a properties map", all, (false, false, false, false), Box::new(|t| is_view(t.o) && !t.o.bindings.iter().any(|(l, _)| l.contains("eader")))),
+        32 => ("ill-typed-separator", "separator".into(), "SPECIAL:nonbool".into(), LeafSpec { konst: Konst::Fail, ret_ok: false, ..base }, "expression type mismatch", all, (false, false, false, false), Box::new(|t| family_of(&t.o.class) == Family::Action && !has(t.o, "separator") && !t.parent.map(|p| has(p, "actions")).unwrap_or(false))),
+        33 => ("dynamic-non-object-on-pointer-property", "TYPED:pointer".into(), "SPECIAL:dynscalar".into(), LeafSpec { konst: Konst::Dyn, ret_ok: false, ..base }, "expression type mismatch", all, (false, false, false, false), Box::new(|t| !typed_candidates(t.o, ValueKind::Pointer).is_empty())),
+        34 => ("ill-typed-dynamic-gadget-member", "DYNMEMBER".into(), String::new(), LeafSpec { konst: Konst::Dyn, ret_ok: false, ..base }, "expression type mismatch", all, (false, false, false, false), Box::new(|t| widgetish(t.o) && !dyn_members(t.o).is_empty())),
+        35 => ("ill-typed-dynamic-scalar", "DYNSCALAR".into(), String::new(), LeafSpec { konst: Konst::Dyn, ret_ok: false, ..base }, "expression type mismatch", all, (false, false, false, false), Box::new(|t| family_of(&t.o.class) != Family::Spacer && !dyn_scalars(t.o).is_empty())),
         _ => ("unknown-property-on-action-or-spacer", "noSuchProperty".into(), "1".into(), LeafSpec { enters: false, ..base }, "unknown property of class", all, (false, false, false, false), Box::new(|t| matches!(family_of(&t.o.class), Family::Action | Family::Spacer))),
     };
     // never touch the dynamic-expression sources (other bindings read them) and keep static separators static
@@ -402,6 +463,24 @@ pub fn plant_fault(rng: &mut Rng, root: &Obj, kind: usize) -> Option<(Obj, Vec<F
             extra.push(((*l).to_owned(), (*r).to_owned()));
         }
     }
+    // ill-typed variants of the dynamic values that are refused wherever they stand (nested object map, attached map)
+    if (kind == 21 || kind == 12) && rng.chance(1, 2) {
+        rhs = "srcEdit.text".to_owned();
+    }
+    if lhs == "DYNSCALAR" {
+        let c = dyn_scalars(t.o);
+        let (n, ty) = rng.pick(&c).clone();
+        rhs = misfit(rng, &ty);
+        lhs = n;
+    } else if lhs == "DYNMEMBER" {
+        let c = dyn_members(t.o);
+        let (g, m, ty) = rng.pick(&c).clone();
+        rhs = misfit(rng, &ty);
+        lhs = format!("{g}.{m}");
+    } else if lhs == "HEADERPROP" {
+        lhs = if t.o.class == "QTreeView" { "header".to_owned() } else { (*rng.pick(&["horizontalHeader", "verticalHeader"])).to_owned() };
+    }
+    let special = rhs.strip_prefix("SPECIAL:").map(|x| x.to_owned());
     if let Some(k) = lhs.strip_prefix("TYPED:") {
         let value = (*rng.pick(&["1", "\"x\"", "true", "0.5"])).to_owned();
         let (l, ty) = match k {
@@ -424,6 +503,19 @@ pub fn plant_fault(rng: &mut Rng, root: &Obj, kind: usize) -> Option<(Obj, Vec<F
         lhs = l;
         // a pointer property bound to a scalar: any non-object constant
         rhs = value;
+    }
+    if let Some(k) = special {
+        rhs = match k.as_str() {
+            // not a list of actions: a single object, a string, a number, a list of the wrong objects
+            "actions" => {
+                let mut c: Vec<String> = vec!["\"open\"".into(), "1".into(), "srcEdit".into(), "[srcEdit]".into()];
+                c.extend(t.o.children.iter().filter(|x| x.class == "QAction").filter_map(|x| x.id.clone()));
+                rng.pick(&c).clone()
+            }
+            "scalar" => (*rng.pick(&["1", "\"x\"", "true", "srcEdit"])).to_owned(),
+            "nonbool" => (*rng.pick(&["1", "\"x\"", "0.5"])).to_owned(),
+            _ => (*rng.pick(&["srcEdit.text", "srcSpin.value", "srcSpin.value + 1"])).to_owned(),
+        };
     }
     if lhs.starts_with("HEADER.") {
         let h = if t.o.class == "QTreeView" { "header" } else { *rng.pick(&["horizontalHeader", "verticalHeader"]) };
@@ -1151,6 +1243,33 @@ fn witness_request(name: &str) -> Sexp {
             let l2 = Obj::new("QLabel").with_id("l2").bind("buddy", "1");
             fs.push(mk(5, "buddy", "1", "expression type mismatch"));
             let r = root(vec![l, combo, Obj::new("QTabWidget").with_id("tabs").child(page), l2]);
+            let doc = Doc::build(&r, &[], &fs);
+            let mut args = tables_of(&doc);
+            args.push(fault_sexp(&doc, &fs[0], true));
+            args.push(also_sexp(&doc, &fs));
+            node("c04-fault", args)
+        }
+        // round 3: an ill-typed DYNAMIC member of a gadget map and ill-typed values on the properties of the special consumers
+        "round3" => {
+            let dynbad = LeafSpec { konst: Konst::Dyn, ret_ok: false, ..LeafSpec::default() };
+            let cbad = LeafSpec { konst: Konst::Fail, ret_ok: false, readable: false, writable: false, ..LeafSpec::default() };
+            let mk = |obj: usize, lhs: &str, rhs: &str, spec: &LeafSpec, message: &'static str| Fault { name: "ill-typed-dynamic-gadget-member", obj, lhs: lhs.into(), rhs: rhs.into(), spec: spec.clone(), map_fault: false, att_fault: false, att_unresolved: false, unknown_type: false, message, reported: (true, true, true) };
+            let edit = Obj::new("QLineEdit").with_id("srcEdit");
+            let label = Obj::new("QLabel").with_id("l").bind("font.family", "\"Monospace\"").bind("font.pointSize", "srcEdit.text");
+            let panel = Obj::new("QWidget").with_id("w").bind("actions", "open").child(Obj::new("QAction").with_id("open").bind("text", "\"Open\""));
+            let combo = Obj::new("QComboBox").with_id("c").bind("model", "1");
+            let view = Obj::new("QTreeView").with_id("v").bind("header", "\"x\"");
+            let act = Obj::new("QAction").with_id("a").bind("separator", "1");
+            let l2 = Obj::new("QLabel").with_id("l2").bind("buddy", "srcEdit.text");
+            let fs = vec![
+                mk(2, "font.pointSize", "srcEdit.text", &dynbad, "expression type mismatch"),
+                mk(3, "actions", "open", &cbad, "expression type mismatch"),
+                mk(5, "model", "1", &cbad, "expression type mismatch"),
+                mk(6, "header", "\"x\"", &cbad, "not a properties map"),
+                mk(7, "separator", "1", &LeafSpec { konst: Konst::Fail, ret_ok: false, ..LeafSpec::default() }, "expression type mismatch"),
+                mk(8, "buddy", "srcEdit.text", &dynbad, "expression type mismatch"),
+            ];
+            let r = root(vec![edit, label, panel, combo, view, act, l2]);
             let doc = Doc::build(&r, &[], &fs);
             let mut args = tables_of(&doc);
             args.push(fault_sexp(&doc, &fs[0], true));
